@@ -3323,4 +3323,69 @@ example : gtfScan [97] 5 true [97, 32, 34, 120, 34] = gtfScan [97] 4 (isWordByte
 example : ∃ vs, digitMatrixValues [52, 50, 9] [(0, 2)] = .ok vs :=
   (digitMatrixValues_ok_iff [52, 50, 9] [(0, 2)] (by decide)).mpr (by decide)
 
+
+/-! ### review round: coordinate shift touches one column; genotype matrix reader tabulated from the package -/
+
+
+theorem shiftCol_length (j : Nat) (d : Int) (cols : List Col) : (shiftCol j d cols).length = cols.length := by
+  simp [shiftCol]
+
+/-- **shiftCol_others.** The coordinate shift touches column `j` only: every other column of the parse — and column
+`j` itself when it does not hold integers — is handed through unchanged. -/
+theorem shiftCol_others (j : Nat) (d : Int) (cols : List Col) (i : Nat)
+    (h : i ≠ j ∨ ∀ v, cols[i]? ≠ some (Col.ints v)) : (shiftCol j d cols)[i]? = cols[i]? := by
+  unfold shiftCol
+  rw [List.getElem?_map]
+  rcases Nat.lt_or_ge i cols.length with hi | hi
+  · rw [List.getElem?_eq_getElem (by simp; exact hi), List.getElem?_eq_getElem hi]
+    simp only [List.getElem_zip, List.getElem_range, Option.map_some, Option.some.injEq]
+    cases hc : cols[i] with
+    | ints v =>
+      rcases h with h | h
+      · simp [h]
+      · exact absurd (by rw [List.getElem?_eq_getElem hi, hc]) (h v)
+    | _ => rfl
+  · rw [List.getElem?_eq_none (by simp; exact hi), List.getElem?_eq_none hi]; rfl
+
+example : (shiftCol 1 (-1) [Col.strs [[99]], Col.ints [7], Col.ints [9]])[2]? = some (Col.ints [9]) := by decide
+
+
+
+set_option maxRecDepth 200000 in
+/-- **gen_genotype_table.** On every three-byte sample field over 0 1 2 3 . | / A (512 fields, re-measured on the
+running package every run) the model agrees with the genotype-matrix reader: the field is rejected exactly when
+`gtOK` says so, and otherwise the reader shows the model's decode ∘ encode. -/
+theorem gen_genotype_table :
+    Gen.C02.gtTable.all (fun e => (if gtOK "VCFMatrixBuffer" e.1 then gtDecode (gtEncode e.1) else []) == e.2) = true := by
+  decide
+
+set_option maxRecDepth 200000 in
+/-- of those 512 fields the reader accepts exactly the 32 genotypes `a sep b` with alleles 0 1 2 . — and shows each
+of them unchanged -/
+theorem gen_genotype_accepted :
+    (Gen.C02.gtTable.filter (fun e => e.2 != [])).map (·.1)
+      = gtAlleles.flatMap (fun a => gtSeps.flatMap (fun s => gtAlleles.map (fun b => [a, s, b]))) ∧
+    (Gen.C02.gtTable.filter (fun e => e.2 != [])).all (fun e => e.1 == e.2) = true := by decide
+
+/-- **genotype_accept_iff.** The genotype-matrix reader accepts a sample field exactly when its first three bytes are
+`allele sep allele` with alleles 0 1 2 . and separator | or / — for EVERY field, not only the tabulated ones; and
+what it then shows is the field itself (`genotype_triplets`). An allele number above 2 is an EncodingError (before
+repair 2e63fc1 it was shown as allele 0: `gtUnknownOld_unsound`). -/
+theorem genotype_accept_iff (a s b : Nat) (rest : Bytes) :
+    gtOK "VCFMatrixBuffer" (a :: s :: b :: rest) = true ↔ a ∈ gtAlleles ∧ s ∈ gtSeps ∧ b ∈ gtAlleles := by
+  simp [gtOK, List.contains_iff_mem, and_assoc]
+
+/-- every accepted field is shown unchanged -/
+theorem genotype_accepted_id (a s b : Nat) (h : gtOK "VCFMatrixBuffer" [a, s, b] = true) :
+    gtDecode (gtEncode [a, s, b]) = [a, s, b] := by
+  obtain ⟨ha, hs, hb⟩ := (genotype_accept_iff a s b []).mp h
+  simp only [gtAlleles, gtSeps, List.mem_cons, List.not_mem_nil, or_false] at ha hs hb
+  rcases ha with rfl | rfl | rfl | rfl <;> rcases hs with rfl | rfl <;> rcases hb with rfl | rfl | rfl | rfl <;> decide
+
+/-- the rule before the repair: no check — "3/1" went through the lookup as index 0 and was shown as "0/1" -/
+theorem gtUnknownOld_unsound :
+    gtDecode (gtEncode [51, 47, 49]) = [48, 47, 49] ∧ gtOK "VCFMatrixBuffer" [51, 47, 49] = false := by decide
+
+example : gtOK "VCFMatrixBuffer" [49, 124, 46] = true := by decide
+
 end C02
